@@ -16,8 +16,8 @@ impl<T: ArrayElement + FromStr> FromStr for List<T>
 
     fn from_str(s: &str) -> Result<Self, Self::Err> {
         let s = s
-            .trim_start_matches('(')
-            .trim_end_matches(')')
+            .trim_start_matches(['(', '['])
+            .trim_end_matches([')', ']'])
             .replace(", ", ",");
         let mut items = vec![];
         for item in s.split(',') {
